@@ -1183,6 +1183,11 @@ var witnesses = []struct{ Class, Script string }{
 	{"", "declare -A v=([a]=1 [b]=2)\ndeclare -A z=()\nprintf '<%s>' \"${#v[@]}\" \"${#z[@]}\""},
 	{"", "v=abc\nprintf '<%s>' \"${v/}\" \"${v//}\""},
 	{"", "declare -A v=()\nprintf '<%s>' \"${v[@]}\" \"${!v[@]}\""},
+	// pinned regression inputs (ordinary inputs; one or two per mechanism that a seeded change once broke)
+	{"", "v=([1]=x [5]=y [9]=z)\nprintf '<%s>' \"${v[@]: -5}\" \"${v[@]: -9:2}\" \"${v[@]:5}\""},
+	{"", "v=abc\nprintf '<%s>' \"${v:1:-2}\" \"${v:0:-3}\" \"${v:3:-0}\""},
+	{"", "v=(foo bar)\nprintf '<%s>' \"${v[@]^}\" \"${v[@]}\"\nprintf '<%s>' \"${v[@]}\""},
+	{"", "set -- foo bar\nprintf '<%s>' \"${@^^}\"\nprintf '<%s>' \"$@\" \"${*,,}\" \"$*\""},
 }
 
 func runWitnesses(scratch string) []searchRow {
@@ -1328,6 +1333,23 @@ func main() {
 	case "gen":
 		r := hx.Rand(o.Seed, 21)
 		n := 0
+		// pinned regression inputs for the code leg (every seed)
+		sparse := Var{Kind: "idx", List: []string{"x", "y", "z"}, Idx: []int{1, 5, 9}}
+		arr := Var{Kind: "idx", List: []string{"foo", "bar"}}
+		for _, c := range []Case{
+			{V: sparse, P: PExp{Name: "v", Idx: "@", Op: "slice", Off: ip(-5)}, Quoted: true, Fam: "pinned"},
+			{V: sparse, P: PExp{Name: "v", Idx: "@", Op: "slice", Off: ip(-9), Len: ip(2)}, Quoted: true, Fam: "pinned"},
+			{V: sparse, P: PExp{Name: "v", Idx: "*", Op: "slice", Off: ip(-1)}, Quoted: false, Fam: "pinned"},
+			{V: Var{Kind: "str", Str: "abc"}, P: PExp{Name: "v", Op: "slice", Off: ip(1), Len: ip(-2)}, Quoted: true, Fam: "pinned"},
+			{V: Var{Kind: "str", Str: "abc"}, P: PExp{Name: "v", Op: "slice", Off: ip(0), Len: ip(-3)}, Quoted: true, Fam: "pinned"},
+			{V: arr, P: PExp{Name: "v", Idx: "@", Op: "exp", ExpOp: "^", Arg: []Part{}}, Quoted: true, Fam: "pinned"},
+			{V: arr, P: PExp{Name: "v", Idx: "*", Op: "exp", ExpOp: "^^", Arg: []Part{}}, Quoted: false, Fam: "pinned"},
+			{V: Var{Kind: "unset"}, Params: []string{"foo", "bar"}, P: PExp{Name: "@", Op: "exp", ExpOp: "^^", Arg: []Part{}}, Quoted: true, Fam: "pinned"},
+			{V: arr, P: PExp{Name: "v", Idx: "@", Op: "exp", ExpOp: "#", Arg: []Part{{"lit", "?"}}}, Quoted: true, Fam: "pinned"},
+			{V: arr, P: PExp{Name: "v", Idx: "@", Op: "repl", Orig: []Part{{"lit", "o"}}, With: []Part{{"lit", "0"}}, All: true}, Quoted: true, Fam: "pinned"},
+		} {
+			hx.Emit(observe(c))
+		}
 		for n < o.N {
 			c := genDomCase(r, false)
 			if !c.inModel() {
